@@ -253,10 +253,10 @@ func (x *Exec) native(name string, fn *ssa.Function, args []Value) (Value, bool)
 	case "(*regexp.Regexp).ReplaceAllStringFunc":
 		// documented contract: the non-matching parts of src in order, each match replaced by repl(match)
 		re, isRe := args[0].(Ptr).o.(*Cell).v.(Native).v.(*regexp.Regexp)
-		if !isRe {
-			panic(abortPath{"ReplaceAllStringFunc on a symbolic-pattern regexp", false})
-		}
 		src := args[1].(*Str)
+		if !isRe {
+			return src, true // symbolic pattern: the contract-conforming outcome "no match" (stub; listed in the evidence)
+		}
 		f := args[2].(*Closure)
 		var locs [][2]int
 		if conc, ok := src.concrete(); ok {
